@@ -124,6 +124,18 @@ def run(rep, tier, seed):
                 d = codec.impl_decode(mode[0], case.t, ie[1], case.schema)
                 if d[0] == 'ok' and d[2] == b'' and gen.val_equiv(case.t, d[1], case.v):
                     pool.append((mode[0], case, ie[1]))
+    # tails much larger than any internal read size
+    for size in ([2 ** 20 - 1, 2 ** 20, 2 ** 20 + 1, 3 * 2 ** 20 + 5] if tier == 'thorough' else [2 ** 20 + 1, 2 ** 21 + 3]):
+        if not pool:
+            break
+        cdc, case, e = rng.choice(pool)
+        tail = bytes(rng.randrange(256) for _ in range(64)) * (size // 64) + b'\x00' * (size % 64)
+        r = codec.impl_decode(cdc, case.t, e + tail, case.schema)
+        rep.case('bigtail %d %s' % (size, case.canon[:100]), nontrivial=True)
+        rep.count('big-tails')
+        if not (r[0] == 'ok' and r[2] == tail):
+            rep.fail('big-tail-not-preserved', 'tail of %d octets: got %s' % (size, (r[0], len(r[2]) if r[0] == 'ok' else r[1])),
+                     dict(case.replay, kind='bigtail', size=size, bytes=e.hex()))
     for _ in range(len(pool) // 3):
         cdc = rng.choice(['ber', 'cer', 'der'])
         items = [(c, e) for (m, c, e) in rng.sample(pool, min(len(pool), rng.randrange(1, 6))) if m == cdc or (cdc == 'ber')]
